@@ -110,11 +110,17 @@ func runC03(c *Ctx) {
 	}
 
 	c03CallbackOwners(c)
+	c.Rule("C03-D9", "a deferred ack is not suppressed (F38): emitBuffered records an ack id as answered — and answers with an empty ACK itself — only on the path where the handler has no ack function (the result of "+
+		"callEvent is false); with an ack function the reply is the handler's to send, also after it has returned", 1)
+	deferredAckNotSuppressed(c, "C03-D9")
+	c.Rule("C03-D10", "the retry queue's replacement ack acts only for its own packet (F39): every pop of queuedPackets[1:] in the replacement closure of addToQueue is behind the test queuedPackets[0] == packet made in "+
+		"the same critical section of pq.mu, and the application's callback is invoked only behind that test", 2)
+	replacementAckHeadGuard(c, "C03-D10")
 	c.Rule("C03-D8", "a decoded header owns its storage (shared with C09-D12): every pointer field of the PacketHeader built in parser/json (the ack id) is set to the address of a variable of that call, nil, or a pointer "+
 		"the caller passed — never to a field of the Parser or a package-level variable, which the next packet of the connection overwrites while this packet's handlers (dispatched on their own goroutines) still read it", 1)
 	headerOwnsItsStorage(c, "C03-D8")
 
-	c.Rule("C03-D5", "retry queue: the application's callback of a queued emit is invoked, and the packet leaves the queue, only on a final outcome — the reply, or the failure of the last allowed try (tryCount > Retries) — never on the failure of an intermediate try (the packet is re-sent then and will report again)", 3)
+	c.Rule("C03-D5", "retry queue: the application's callback of a queued emit is invoked, and the packet leaves the queue, only on a final outcome — the reply, or the failure of the last allowed try (tryCount > Retries) — never on the failure of an intermediate try (the packet is re-sent then and will report again)", 2)
 	{
 		top := p.Fn("sio", "clientPacketQueue.addToQueue")
 		n := 0
@@ -140,8 +146,8 @@ func runC03(c *Ctx) {
 				c.Ob("C03-D5", FuncName(f)+"/dequeue-only-on-final-outcome", po.Pos(), !r, "the packet leaves the retry queue although this try failed and another try follows: "+trailString(p, trail))
 			}
 		}
-		if n < 3 {
-			c.Undecided("C03-D5: found %d callback/dequeue sites in the retry queue's replacement ack, expected at least 3", n)
+		if n < 2 {
+			c.Undecided("C03-D5: found %d callback/dequeue sites in the retry queue's replacement ack, expected at least 2", n)
 		}
 	}
 
